@@ -12,7 +12,7 @@ let hdr_of_toks = function
 
 let mk_src data spec tail =
   { chunks = (match chunks_of_spec ~trailing:(tail <> "eofdata" && tail <> "faildata") spec data with Some cs -> cs | None -> chunk_by (sizes_of_spec spec (List.length data)) data);
-    tl = (if tail = "fail" then TFail else TEOF) }
+    tl = (if tail = "fail" || tail = "faildata" then TFail else TEOF) }
 
 let cls_of_model = function
   | Datatypes.Coq_inr _ -> "ok"
